@@ -157,6 +157,28 @@ class DfContract(FrameModel, Contract):
     def spec_funcs(self):
         d = self.frame_hooks()
         d.update(self.oracle_funcs())
+
+        def augassign_hook(I, stmt, cur, fr):
+            # `a += b` on a pandas object updates it IN PLACE.  Per-column vectors (VVec) and frames are pandas objects;
+            # if the object is (part of) the state that was passed in, the caller's copy of the state changes under its
+            # feet: the state emitted with with_state=True / passed as start= would be rewritten by later batches (C12).
+            if not isinstance(cur, (VVec, VFrame)):
+                return
+            pre = getattr(self, 'pre_args', {})
+            ids = set()
+
+            def walk(v):
+                ids.add(id(v))
+                for it in getattr(v, 'items', []) or []:
+                    walk(it)
+            for name, v in pre.items():
+                if name not in ('self', 'agg'):
+                    walk(v)
+            if id(cur) in ids:
+                I.oblige('C12.state_passed_in_is_not_updated_in_place', z3.BoolVal(False), kind='callsite',
+                         note='augmented assignment `%s` updates a pandas object that belongs to the state argument' % ast.unparse(stmt))
+                I.st.obligations[-1].props = ['C12']
+        d['augassign_hook'] = augassign_hook
         return d
 
     def make_interp(self, index):
